@@ -79,6 +79,9 @@ def step (st : St) (ws : List String) : St × String :=
       let m := (Builder.mk (natOf id) (notify = "1") (natOf ec) (natOf qf) (natOf bf) q b).build
       (st, joinSp [idx, hexOfBytes m.toVec])
     | _, _ => (st, idx ++ " bad-op")
+  | ["net", idx, _ep, _h] =>
+    -- hostile bytes against a real endpoint: the model's prediction is C02's totality — the endpoint survives
+    (st, idx ++ " survived")
   | ["hdr", idx, h] =>
     match bytesOfHex h with
     | some bs => (st, idx ++ " " ++ showOut showHeader (Header.decode Gen.headerSumForm st.mode bs))
